@@ -14,13 +14,22 @@ namespace SR.C01
 
 open SR
 
+/-- Species of the leaves of an input tree. -/
+def leafSpeciesOf : OTree → List Path
+  | .leaf sp _ => [sp]
+  | .node l r => leafSpeciesOf l ++ leafSpeciesOf r
+
 /-- The full statement for the enumerator: `generateAll` lists exactly the
-    valid reconciliations, each once. -/
+    valid reconciliations, each once, provided the leaf species are species of
+    `S` (without that guard the statement is false: `C01_enum_guard_needed`).
+    PROVED as `C01_enum` / `C01_enum_allValid` in `Properties/C01Enum.lean`. -/
 def C01_enum_statement : Prop :=
-  ∀ (S : RTree) (o : OTree), (∀ sol, sol ∈ generateAll o ↔ Spec.validRec o sol = true ∧ sol ∈ Spec.allMappings S o)
+  ∀ (S : RTree) (o : OTree), (∀ p, p ∈ leafSpeciesOf o → S.isNode p = true) →
+    (∀ sol, sol ∈ generateAll o ↔ Spec.validRec o sol = true ∧ sol ∈ Spec.allMappings S o)
     ∧ (generateAll o).Nodup
 
-/-- The full statement for the exhaustive solver (given the enumerator). -/
+/-- The full statement for the exhaustive solver.  PROVED verbatim as
+    `C01_exh` in `Properties/C01Enum.lean`. -/
 def C01_exh_statement : Prop :=
   ∀ (c : Costs) (S : RTree) (o : OTree) (sol : Sol), sol ∈ exhaustive c o →
     Spec.validRec o sol = true ∧
